@@ -19,6 +19,7 @@
   -- [V] observation outside the quantifier (custom font with spacing > 0, neither text nor background colour): `draw_string` returns one trailing spacing more than `measure_string` (`draw_next_transparent_with_spacing`, witness in corpus/C15.ops): checked on the real code by the oracle, not a claim of the property
 -/
 import EG.Lemmas.TextLayoutChain
+import EG.Lemmas.TextLayoutCrlf
 namespace EG.C15
 open EG EG.Font EG.TextLayout
 
@@ -98,6 +99,8 @@ theorem chaining_next (f : MonoFont) (h : f.spacing = 0) (atlas : Pt → Bool) (
     (f.drawString atlas st (s1 ++ s2) p bl).2 =
       (f.drawString atlas st s2 (f.drawString atlas st s1 p bl).2 bl).2 :=
   drawString_next_append f h atlas st s1 s2 p bl
+
+example : (⟨64, 36, 4, 6, 0, 4, 6, 1, 3, 1, fun _ => 0⟩ : MonoFont).spacing = 0 := rfl
 
 /-- The glyph cells coincide: the calls `draw_string_binary` makes for `s1 ++ s2` (one `fill_contiguous`
 per character: which atlas cell, into which target cell) are those for `s1` followed by those for `s2`
@@ -273,6 +276,19 @@ theorem crlf_eq_lf_draw (f : MonoFont) (atlas : Pt → Bool) (t : Text) (h : has
 
 example : hasCRCRLF [65, 66, 13, 10, 67, 13, 10, 13, 10, 68, 13] = false := by decide
 example : crlfToLf [65, 66, 13, 10, 67, 13, 10, 13, 10, 68, 13] = [65, 66, 10, 67, 10, 10, 68, 13] := by decide
+
+/-- Terminator form: a text written as line contents, each ended by LF or by CR LF (`true`), then a last
+line — whichever terminators are chosen, the lines (contents and positions, every alignment) are those of
+the text with LF everywhere. Contents contain no `\n` and do not end in `\r` (so the text reads
+unambiguously); nothing else is assumed. -/
+theorem crlf_terminator_eq_lf (f : MonoFont) (L : List (List Nat × Bool)) (last : List Nat) (p : Pt)
+    (st : Style) (ts : TextStyle) (h : ∀ lc ∈ L, 10 ∉ lc.1 ∧ lc.1.getLast? ≠ some 13) (hl : 10 ∉ last) :
+    lines f ⟨joinLines L last, p, st, ts⟩ =
+      lines f ⟨joinLines (L.map (fun lc => (lc.1, false))) last, p, st, ts⟩ :=
+  lines_joinLines f L last p st ts h hl
+
+example : joinLines [([65, 66], true), ([], true), ([67], false)] [68] = [65, 66, 13, 10, 13, 10, 67, 10, 68] := by
+  decide
 
 /-- For every text (no hypothesis): splitting after the replacement = splitting, then stripping one `\r`
 from every segment that a `\n` ended. -/
